@@ -340,3 +340,42 @@ func zzH_SRVn() {
 		vReach("end")
 	})
 }
+
+// zzH_SRVw: two handlers of one connection finish at the same time: two goroutines call the real
+// serverCodec.WriteResponse concurrently (every header encoder). Each response frame must carry its own
+// sequence number together with its own reply. Run at the finest granularity (preemption at every
+// function call) with one preemption.
+func zzH_SRVw() {
+	var enc Encoder
+	switch vChoose("header-encoder", 3) {
+	case 1:
+		enc = NewHeaderEncoder("pb")()
+	case 2:
+		enc = NewHeaderEncoder("code")()
+	}
+	m := newZZMsgs(8)
+	m.yieldW = false
+	codec := NewServerCodec(&zzBytesCodec{}, enc, m, true, 64)
+	r1, r2 := []byte{0x61, 0x61}, []byte{0x62}
+	vGo("writer", func() {
+		codec.WriteResponse(&Context{Seq: 1, upgrade: &upgrade{}}, &r1)
+	})
+	codec.WriteResponse(&Context{Seq: 2, upgrade: &upgrade{}}, &r2)
+	vQuiesce()
+	res := zzDecodeResponsesEnc(m, enc)
+	vAssert(len(res) == 2, "one-response-per-request")
+	for _, r := range res {
+		switch r.Seq {
+		case 1:
+			vAssert(vEqBytes(r.Reply, r1), "reply-of-own-args")
+		case 2:
+			vAssert(vEqBytes(r.Reply, r2), "reply-of-own-args")
+		default:
+			vAssert(false, "answered-exactly-once")
+		}
+	}
+	if len(res) == 2 {
+		vAssert(res[0].Seq != res[1].Seq, "answered-exactly-once")
+	}
+	vReach("end")
+}
